@@ -59,6 +59,14 @@ func init() {
 		Assumptions: []string{seqAssumption},
 		Cases:       func(t string) int { return tierN(t, 1600, 40000) + tierN(t, 240, 6000) },
 		RunCase: func(c *CaseCtx) *CaseResult {
+			if c.Idx < tierN(c.Tier, 1, 8) {
+				// the limit / delay of a definition that arrives through the REAL reload path of the binary (SIGUSR1) is in force
+				bin := os.Getenv("PRUNNER_BIN")
+				if bin == "" {
+					return &CaseResult{Idx: c.Idx, Inconclusive: "PRUNNER_BIN not set (bin/check builds cmd/prunner from /repo)"}
+				}
+				return simpleCase(c, drv.RunReloadBinaryCase(c.Seed+int64(c.Idx), bin, c.TmpDir), 1)
+			}
 			if c.Idx >= tierN(c.Tier, 1600, 40000) {
 				// schedules: concurrent clients; snapshot invariant, offline interval checker and linearizability
 				return linCase(c, "C01")
@@ -372,6 +380,14 @@ func init() {
 		Assumptions: []string{seqAssumption, "timer expiry is observed through hook H2 (delay-handler entered/returned); no verdict depends on a wall-clock deadline"},
 		Cases:       func(t string) int { return tierN(t, 700, 14000) + tierN(t, 500, 10000) },
 		RunCase: func(c *CaseCtx) *CaseResult {
+			if c.Idx < tierN(c.Tier, 1, 8) {
+				// the limit / delay of a definition that arrives through the REAL reload path of the binary (SIGUSR1) is in force
+				bin := os.Getenv("PRUNNER_BIN")
+				if bin == "" {
+					return &CaseResult{Idx: c.Idx, Inconclusive: "PRUNNER_BIN not set (bin/check builds cmd/prunner from /repo)"}
+				}
+				return simpleCase(c, drv.RunReloadBinaryCase(c.Seed+int64(c.Idx), bin, c.TmpDir), 1)
+			}
 			nReal := tierN(c.Tier, 700, 14000)
 			if c.Idx >= nReal {
 				o := admissionOpts(c.Idx)
